@@ -16,7 +16,8 @@ TIE = "Tie.C11"
 DRIVER = "c11_driver.py"
 DRIVER_TIMEOUT = 1500
 THEOREMS = ["C11_discipline_safe", "C11_skeleton_disciplined", "C11_inlining_preserves_discipline",
-            "C11_call_trees_safe", "C11_inlined_paths_safe", "C11_todays_code_safe", "C11_no_stale_survivor",
+            "C11_call_trees_safe", "C11_inlined_paths_safe", "C11_loops_safe_for_any_count", "C11_todays_loops_safe",
+            "C11_todays_code_safe", "C11_no_stale_survivor",
             "C11_store_detached", "C11_atomic_answer", "C11_readers_only_safe"]
 RULE = ("one case = lookup flavour (LookupBase / VerifyingBase subclass) x entry point (lookup, lookup1, adapter_hook, "
         "queryAdapter, lookupAll, subscriptions, Interface.__call__ through adapter_hooks) x callback point out of the "
@@ -35,8 +36,10 @@ TRUSTED_BASE = [
     "sys.getrefcount / gc.get_referents as observations of ownership",
 ]
 ASSUMPTIONS = [
-    "an item borrowed from a tuple lives as long as the tuple is kept alive (tuples are immutable)",
-    "loops over a tuple are unrolled 0, 1 and 2 times by the extractor",
+    "tuples are immutable (modelled: the environment never adds to or removes from a tuple object); applying "
+    "PyTuple_GET_ITEM to something that is not a tuple is outside the model (such an execution is 'infeasible')",
+    "a loop body is executed symbolically once, from the state at the loop head; the theorem then covers every "
+    "number and order of iterations",
     "the uncached computation reads one registry state (its linearisation point); mutators end with changed(); "
     "the extendors list handed to a running Python walker is an immutable snapshot (add_extendor / remove_extendor "
     "assign a new list: shape-checked on adapter.py on every run, fail closed)",
@@ -52,7 +55,10 @@ LEVEL_TEXT = ("Machine-checked: a path that keeps to the ownership discipline D 
               "getObjectSpecification / __call__ / __adapt__ / the descriptors) satisfies D, and the stronger Dc, on every "
               "path, key __hash__/__eq__ callbacks included (C11_skeleton_disciplined, recomputed from the C text on "
               "every run); inlining a disciplined callee path at a call site preserves the discipline "
-              "(C11_inlining_preserves_discipline), so whole call trees to any depth are safe (C11_call_trees_safe); "
+              "(C11_inlining_preserves_discipline), so whole call trees to any depth are safe (C11_call_trees_safe); loops "
+              "are safe for every iteration count (C11_loops_safe_for_any_count, by induction over the iterations; "
+              "C11_todays_loops_safe for the extracted loops); borrowed container items follow per-container rules "
+              "(tuple: valid while the tuple is owned; dict value / list item: until the next may-call point); "
               "in the handle model of cached lookups no pre-mutation answer is reachable after changed(), interrupted "
               "stores go to a detached dictionary, every returned answer is the uncached answer of a state inside the "
               "lookup's window, readers alone always get the one right answer — for any number of threads and any "
@@ -66,8 +72,14 @@ LEVEL_NOTE = ("partial: (1) the machine is a model of CPython: real preemption i
               "(C11_inlining_preserves_discipline, C11_call_trees_safe: whole call trees, any depth); what stays an "
               "assumption there is the extractor's pairing of call sites with callee paths (a NULL argument <-> the "
               "callee paths that never touch that parameter) and that a constant argument is modelled as a temporary "
-              "reference; (3) tuple items are identified with their tuple; loops are unrolled 0-2 times; an index "
-              "into a list whose length was cached is not expressible (the extractor poisons such a path instead); "
+              "reference; (3) no longer partial: tuple items are borrowed references of their own (valid while the tuple "
+              "is OWNED, rule SVia), dict values and list items are good only until the next may-call point, and loops "
+              "are covered for EVERY iteration count (C11_loops_safe_for_any_count: each extracted iteration "
+              "re-establishes the discipline state of the loop head, checked on every run); what remains there: a "
+              "tuple-item borrow is given up at every call of another skeleton function (EForget, stricter than "
+              "necessary), an index into a list whose length was cached is not expressible (the extractor poisons such "
+              "an iteration instead), the loop theorem is stated for a function's own paths (call trees contain the "
+              "callee's loop run zero times or left by a return), nested loops are refused; "
               "(4) key __hash__/__eq__ callbacks are over-approximated: every dictionary operation on a non-static key "
               "is a may-call point; (5) providedBy, implementedBy(+Fallback), getObjectSpecification, SB_extends, "
               "_foreign_decl_implies, CPB_descr_get, OSD_descr_get, IB__adapt__, IB__call__ are now extracted too (23 "
@@ -328,6 +340,9 @@ def regenerate(run):
     if isinstance(desc, list):
         run.coverage["skeleton_paths"] = {f["name"]: len(f["paths"]) for f in desc if "table_entry" not in f}
         run.coverage["skeleton_notes"] = [f["name"] + ": " + n for f in desc for n in f["notes"]]
+        run.coverage["skeleton_loops"] = {f["name"]: ["line %d: %d way(s) of reaching the head / %d iteration shape(s)"
+                                                     % (lp["line"], 1, len(lp["iterations"])) for lp in f.get("loops", [])]
+                                          for f in desc if f.get("loops")}
         table = {f["name"]: f["table_entry"] for f in desc if "table_entry" in f}
         run.coverage["api_table_entries_instead_of_extraction"] = table
         for name, why in sorted(table.items()):
